@@ -119,15 +119,15 @@ theorem contractL_cons (rr rt : Bool) (id : Int) (deg : Nat) (e : EdgeD) (c : T)
     contractL rr rt id deg ((e, c) :: r) =
       if e.id == id then
         if c.isLeaf || deg == 1 then (some (if rt then zeroLen e else e, contractT rr rt id false c) :: (contractL rr rt id deg r).1, (contractL rr rt id deg r).2)
-        else if !rr && (c.kids.length + 1 == 2 || deg == 2) then (some (e, contractT rr rt id false c) :: (contractL rr rt id deg r).1, (contractL rr rt id deg r).2)
+        else if !rr && deg == 2 then (some (e, contractT rr rt id false c) :: (contractL rr rt id deg r).1, (contractL rr rt id deg r).2)
         else (none :: (contractL rr rt id deg r).1, (contractT rr rt id false c).kids ++ (contractL rr rt id deg r).2)
       else (some (e, contractT rr rt id false c) :: (contractL rr rt id deg r).1, (contractL rr rt id deg r).2) := by
   rw [contractL]
 
 theorem contractT_node (rr rt : Bool) (id : Int) (isRoot : Bool) (d p k) :
     contractT rr rt id isRoot (.node d p k) =
-      .node d (p - nNone ((contractL rr rt id (k.length + (if isRoot then 0 else 1)) k).1.take p))
-        (stayKids (contractL rr rt id (k.length + (if isRoot then 0 else 1)) k).1 ++ (contractL rr rt id (k.length + (if isRoot then 0 else 1)) k).2) := by
+      .node d (p - nNone ((contractL (rr || !isRoot) rt id (k.length + (if isRoot then 0 else 1)) k).1.take p))
+        (stayKids (contractL (rr || !isRoot) rt id (k.length + (if isRoot then 0 else 1)) k).1 ++ (contractL (rr || !isRoot) rt id (k.length + (if isRoot then 0 else 1)) k).2) := by
   rw [contractT]
 
 end Gotree.C07
@@ -140,7 +140,7 @@ def newKids (rr rt : Bool) (id : Int) (deg : Nat) (k : Kids) : Kids :=
   stayKids (contractL rr rt id deg k).1 ++ (contractL rr rt id deg k).2
 
 theorem contractT_kids (rr rt : Bool) (id : Int) (isRoot : Bool) (d p k) :
-    (contractT rr rt id isRoot (.node d p k)).kids = newKids rr rt id (k.length + (if isRoot then 0 else 1)) k := by
+    (contractT rr rt id isRoot (.node d p k)).kids = newKids (rr || !isRoot) rt id (k.length + (if isRoot then 0 else 1)) k := by
   rw [contractT_node]; rfl
 
 theorem contractT_d (rr rt : Bool) (id : Int) (isRoot : Bool) (c : T) :
@@ -153,12 +153,12 @@ mutual
 theorem contractT_leaves (rr rt : Bool) (id : Int) (isRoot : Bool) :
     ∀ c : T, (contractT rr rt id isRoot c).leaves.Perm c.leaves ∧ (contractT rr rt id isRoot c).isLeaf = c.isLeaf
   | .node d p k => by
-    have h := contractL_leaves rr rt id (k.length + (if isRoot then 0 else 1)) k
+    have h := contractL_leaves (rr || !isRoot) rt id (k.length + (if isRoot then 0 else 1)) k
     rw [contractT_node]
     rw [leaves_node, leaves_node, isLeaf_node, isLeaf_node]
     by_cases hk : k = []
     · subst hk; simp [contractL]
-    · have hne : stayKids (contractL rr rt id (k.length + (if isRoot then 0 else 1)) k).1 ++ (contractL rr rt id (k.length + (if isRoot then 0 else 1)) k).2 ≠ [] := by
+    · have hne : stayKids (contractL (rr || !isRoot) rt id (k.length + (if isRoot then 0 else 1)) k).1 ++ (contractL (rr || !isRoot) rt id (k.length + (if isRoot then 0 else 1)) k).2 ≠ [] := by
         intro hn
         unfold newKids at h
         rw [hn] at h
@@ -215,7 +215,7 @@ theorem contractT_ns (rr rt : Bool) (id : Int) :
     ∀ c : T, c.noSingleBelow = true → (contractT rr rt id false c).noSingleBelow = true
   | .node d p k => by
     intro h
-    have hk := contractL_ns rr rt id (k.length + 1) k
+    have hk := contractL_ns (rr || !false) rt id (k.length + 1) k
     rw [noSingleBelow_node] at h
     simp only [Bool.and_eq_true, bne_iff_ne, ne_eq] at h
     have h2 := hk h.2
@@ -298,7 +298,7 @@ theorem contractT_obs {β : Type} (f : List String → β) (hf : PermInv f) (rr 
       (obsT f (contractT rr rt id false c)).Perm ((obsT f c).filterMap (stepO rt id))
   | .node d p k => by
     intro h
-    have hk := contractL_obs f hf rr rt id (k.length + 1) k
+    have hk := contractL_obs f hf (rr || !false) rt id (k.length + 1) k
     rw [contractT_node, obsT_node, obsT_node]
     apply hk
     · by_cases hk0 : k = []
@@ -307,11 +307,7 @@ theorem contractT_obs {β : Type} (f : List String → β) (hf : PermInv f) (rr 
         cases k with
         | nil => exact absurd rfl hk0
         | cons _ _ => simp
-    · rcases h with h | h
-      · exact Or.inl h
-      · rw [noSingleBelow_node] at h
-        simp only [Bool.and_eq_true, bne_iff_ne, ne_eq] at h
-        exact Or.inr ⟨by omega, h.2⟩
+    · exact Or.inl (by simp)
 theorem contractL_obs {β : Type} (f : List String → β) (hf : PermInv f) (rr rt : Bool) (id : Int) (deg : Nat) :
     ∀ k : Kids, (deg ≠ 1 ∨ k = []) → NoSkip rr deg k →
       (obsL f (newKids rr rt id deg k)).Perm ((obsL f k).filterMap (stepO rt id))
@@ -339,13 +335,10 @@ theorem contractL_obs {β : Type} (f : List String → β) (hf : PermInv f) (rr 
         simp only [stepO, hid, hleaf, if_true, hfl, hl.2, hd]
         exact List.Perm.cons _ (h1.append h2)
       · rw [if_neg hleaf]
-        have hskip : (!rr && (c.kids.length + 1 == 2 || deg == 2)) = false := by
-          rcases h with h | ⟨hdeg2, hns⟩
+        have hskip : (!rr && deg == 2) = false := by
+          rcases h with h | ⟨hdeg2, _⟩
           · simp [h]
-          · rw [noSingleL_cons] at hns
-            simp only [Bool.and_eq_true] at hns
-            have := kids_len_of_ns c hns.1
-            simp [hdeg2, this]
+          · simp [hdeg2]
         rw [hskip]
         simp only [Bool.false_eq_true, if_false, stayKids_none, obsL_append, obsL, List.filterMap_cons, List.filterMap_append]
         simp only [stepO, hid, hleaf, if_true, Bool.false_eq_true, if_false]
@@ -407,7 +400,7 @@ theorem rootOK_step (rr rt : Bool) (id : Int) (t : T) (h : RootOK rr t) : RootOK
   obtain ⟨h1, h⟩ := h
   cases t with
   | node d p k =>
-    have hlen := contractL_len rr rt id (k.length + 0) k
+    have hlen := contractL_len (rr || !true) rt id (k.length + 0) k
     simp only [T.kids_node] at h1
     constructor
     · rw [contractT_kids]
@@ -420,7 +413,7 @@ theorem rootOK_step (rr rt : Bool) (id : Int) (t : T) (h : RootOK rr t) : RootOK
         | cons b r' => simp only [List.length_cons] at hlen ⊢; omega
     · rcases h with h | ⟨h3, hns⟩
       · exact Or.inl h
-      · have := contractL_ns rr rt id (k.length + 0) k hns
+      · have := contractL_ns (rr || !true) rt id (k.length + 0) k hns
         right
         rw [contractT_kids]
         simp only [if_true, T.noSingle, contractT_kids]
@@ -434,6 +427,7 @@ theorem contractT_root_obs {β : Type} (f : List String → β) (hf : PermInv f)
   | node d p k =>
     rw [contractT_node, obsT_node, obsT_node]
     simp only [T.kids_node] at h1
+    simp only [Bool.not_true, Bool.or_false]
     apply contractL_obs f hf rr rt id _ k
     · left; simpa using h1
     · rcases h with h | ⟨h3, hns⟩
